@@ -32,7 +32,8 @@ TCeaOk   == Ev("cea.ok") /\ inq # <<>> /\ Head(inq) = "ok" /\ ~meta /\ HandleCEA
 TCeaFail == Ev("cea.fail") /\ inq # <<>> /\ Head(inq) = "fail" /\ ~meta /\ HandleCEA
 TCeaIgn  == Ev("cea.ignore") /\ meta /\ HandleCEA
 TApp     == Ev("app") /\ AppAnswer
-TEof     == Ev("peer.eof") /\ PeerEOF
+\* (a peer that hangs up after the dial has already returned - the harness was slow to act - changes nothing)
+TEof     == Ev("peer.eof") /\ (PeerEOF \/ (cli \in {"done_ok", "done_err"} /\ Stutter))
 TNext == TReset \/ TSend \/ TWFail \/ TTimer \/ TTimeout \/ TOk \/ TFail \/ TPeer \/ TCeaOk \/ TCeaFail \/ TCeaIgn \/ TApp \/ TEof \/ Silent
 TInit == Init /\ l = 1 /\ TLCSet(1, 0)
 NotDone == l <= Len(Trace)
